@@ -26,8 +26,13 @@ def make_gen(name, script, env):
                 env['act'](name, action)
             yield wait
         env['log'].append((name, 'end'))
-        return 'ret_' + name
+        return RETURNS[name]
     return body()
+
+
+# what each scripted coroutine returns: truthy, falsy and None values (the promise must hold
+# exactly the returned object)
+RETURNS = {'a': 'ret_a', 'b': 0, 'c': ''}
 
 
 class Model:
@@ -232,8 +237,9 @@ def _run(scripts, history, env, cp, gens, promises, gen_of, m, flag):
                 if n in promises and int(promises[n].state) != st:
                     return ('C09', 'promise.state differs from processor.state', 'promise-state')
             if n in m.done and n in promises and n not in getattr(m, 'exhausted', set()) \
-                    and promises[n].value != 'ret_' + n:
-                return ('C09', 'promise of %s holds %r' % (n, promises[n].value), 'promise-value')
+                    and (promises[n].value != RETURNS[n] or type(promises[n].value) is not type(RETURNS[n])):
+                return ('C09', 'promise of %s holds %r, the coroutine returned %r'
+                        % (n, promises[n].value, RETURNS[n]), 'promise-value')
         # released: nothing of a finished/killed coroutine is kept once the frame in which it would
         # next have run is over (m.pending: killed, that frame not reached yet)
         for n in (m.done | m.killed):
